@@ -55,10 +55,30 @@ func payableMenu(w *world.World, o menuOpts) []world.Action {
 			}
 		}
 	}
-	// the system contract as caller (tokens handed out from the metachain)
-	for _, to := range dsts {
-		for _, ex := range extras[:2] {
-			acts = append(acts, uni.SysCall(to, vmcommon.BuiltInFunctionESDTTransfer, append([][]byte{uni.F, uni.Big(1)}, ex...)...))
+	// the system contract as caller (tokens handed out from the metachain), and two other metachain
+	// contracts as callers - only the ESDT system contract itself is exempt
+	payload := []byte{0x12, 0x02, 0x00, 0x01}
+	if a := w.Get(uni.A0); a != nil {
+		if raw, ok := a.Storage[spec.TokPrefix+tS1]; ok {
+			payload = raw
+		}
+	}
+	for _, caller := range [][]byte{uni.ESDT, uni.M2, uni.M} {
+		for _, to := range dsts {
+			for _, ex := range extras[:2] {
+				for _, ct := range []vmcommon.CallType{vmcommon.DirectCall, vmcommon.AsynchronousCall} {
+					batch := []world.Action{
+						uni.Call(caller, to, vmcommon.BuiltInFunctionESDTTransfer, append([][]byte{uni.F, uni.Big(1)}, ex...)...),
+						uni.Call(caller, to, vmcommon.BuiltInFunctionESDTNFTTransfer, append([][]byte{uni.S, uni.Big(1), uni.Big(1), payload}, ex...)...),
+						uni.Call(caller, to, vmcommon.BuiltInFunctionMultiESDTNFTTransfer, append([][]byte{uni.Big(1), uni.F, uni.Big(0), uni.Big(1)}, ex...)...),
+						uni.Call(caller, to, vmcommon.BuiltInFunctionMultiESDTNFTTransfer, append([][]byte{uni.Big(2), uni.F, uni.Big(0), uni.Big(1), uni.S, uni.Big(1), payload}, ex...)...),
+					}
+					for _, a := range batch {
+						a.CallType = ct
+						acts = append(acts, a)
+					}
+				}
+			}
 		}
 	}
 	acts = append(acts, deliveries(w)...)
